@@ -710,3 +710,6 @@ def replay(data):
     codes = C.run_case_files(ID + "_replay", "Base.Res Spec.LinkRef Model.LinkBase Run.C12Run", "Open Scope string_scope.\nOpen Scope Z_scope.",
                              [[term]], judge_expr="map judge cases")
     return not (codes[0][0] & 2)
+
+# session-7 addition to the claimed level (MANIFEST text only)
+LEVEL_TEXT = LEVEL_TEXT + " " + "Props/R_base.v (13 theorems) restates the property on whole programs of the reference assembler: default base 0o1000, base from the first .link / '. =', second .link never assembles, '. = X' backward rejected, forward fills exactly X - addr zero bytes (R_dot_in_program)."
